@@ -350,10 +350,10 @@ func isReturn(in ssa.Instruction) bool {
 
 // nilTest describes `If v != nil` / `If v == nil`.
 type nilTest struct {
-	If      *ssa.If
-	V       ssa.Value
-	NonNil  *ssa.BasicBlock // successor taken when v != nil
-	Nil     *ssa.BasicBlock
+	If     *ssa.If
+	V      ssa.Value
+	NonNil *ssa.BasicBlock // successor taken when v != nil
+	Nil    *ssa.BasicBlock
 }
 
 // nilTestOf recognises an If whose condition is a comparison of a value with nil.
